@@ -46,10 +46,11 @@ def build():
 
 def sset_lines(harness):
     """SSET lines for the model, taken from the real symbol sets"""
-    out, crashes = pc.run_harness_resilient(harness, ["SSET 0", "SSET 1"])
+    out, crashes = pc.run_harness_resilient(harness, ["SSET %d" % k for k in range(4)])
     if crashes or any(o is None for o in out):
         raise vv.BuildError("harness cannot print the symbol sets: %s" % list(crashes.values())[:1])
-    return ["SSET %d %s" % (k, out[k]) for k in (0, 1)]
+    # 0,1: the problems the objects are built with; 2,3: the second, distinct problem objects
+    return ["SSET %d %s" % (k, out[k]) for k in range(4)]
 
 
 def run_model(model, sset, lines):
